@@ -44,8 +44,10 @@ def main():
         print("REPLAY %s" % ("holds" if ok else "FAILS"))
         return 0 if ok else 1
 
-    evidence_path = os.path.join(common.VERIF, "evidence", "%s.json" % prop)
+    out_root = os.environ.get("VERIF_OUT_DIR") or common.VERIF   # (mutation runs redirect evidence/replays elsewhere)
+    evidence_path = os.path.join(out_root, "evidence", "%s.json" % prop)
     obligations = []      # (name, discharged?)
+    leanchecker = None
     axioms = {}
     build_log = ""
     try:
@@ -64,6 +66,13 @@ def main():
             if ok_props:
                 axioms = common.audit_axioms(mod.LEAN_TARGETS, theorems)
             forbidden = common.grep_forbidden(common.lean_sources())
+            leanchecker = None
+            if ok_props and args.tier == "thorough":
+                # independent re-check of the compiled property modules by the toolchain's olean re-checker
+                rc_lc, out_lc = common.run(["lake", "env", "leanchecker"] + list(mod.LEAN_TARGETS), cwd=common.LEAN_DIR, timeout=1500)
+                leanchecker = "ok" if rc_lc == 0 else "FAILED: " + out_lc[-500:]
+                if rc_lc != 0:
+                    raise CheckBroken("leanchecker rejected %s: %s" % (mod.LEAN_TARGETS, out_lc[-800:]))
         if forbidden:
             raise CheckBroken("forbidden constructs in the Lean sources: %s" % forbidden[:5])
         bad_ax = {t: a for t, a in axioms.items() if not set(a) <= common.STD_AXIOMS}
@@ -86,7 +95,15 @@ def main():
 
         # ---- C/D/E. rebuild, correspond, witnesses (inside the property module)
         common.use_repo_package()
-        mod.run(ctx)
+        try:
+            mod.run(ctx)
+        except (CheckBroken, common.EngineBuildError):
+            raise
+        except Exception:
+            # a crash of the harness after the real code already failed the property must not hide the failure
+            if not ctx.violations:
+                raise
+            ctx.notes.append("harness raised after recording a failing input: " + traceback.format_exc()[-600:])
         # ---- failing-input search when something is broken but no failing input is known yet
         if ctx.broken and not ctx.violations and hasattr(mod, "search"):
             mod.search(ctx)
@@ -117,7 +134,7 @@ def main():
     tag = "%s_%s_seed%d" % (prop, args.tier, seed)
     if unlisted:
         v = unlisted[0]
-        replay_path = os.path.join(common.VERIF, "replays", tag + ".json")
+        replay_path = os.path.join(out_root, "replays", tag + ".json")
         write_json(replay_path, {"property": prop, "kind": "failing-input", "key": v["key"], "what": v["what"],
                                  "case": v["case"], "impl": v["impl"], "expected": v["expected"],
                                  "replay_cmd": "./check %s --replay %s" % (prop, os.path.relpath(replay_path, common.VERIF)),
@@ -126,7 +143,7 @@ def main():
         print("VIOLATION property=%s replay=%s" % (prop, replay_path))
         rc = 1
     elif ctx.broken:
-        replay_path = os.path.join(common.VERIF, "replays", tag + ".json")
+        replay_path = os.path.join(out_root, "replays", tag + ".json")
         write_json(replay_path, {"property": prop, "kind": "no-failing-input-found",
                                  "broken": ctx.broken[:10],
                                  "note": "the named theorem / anchor / correspondence no longer checks on this tree; "
@@ -162,6 +179,7 @@ def main():
         "broken": ctx.broken[:10],
         "known_findings_reproduced": sorted(seen),
         "notes": ctx.notes,
+        "leanchecker": leanchecker if args.tier == "thorough" else "not run in quick tier",
     }
     cov.update(ctx.extra)
     write_json(evidence_path, {
